@@ -138,3 +138,52 @@ func VH_C12_Loop() {
 	vx.Assert(late.calls == 1 && (k < 3 || cls[2].calls == 1), "C12:loop-refused-requests-not-answered-again")
 	vx.Assert(a.Done(), "C12:loop-leaves-nothing-queued")
 }
+
+// ---- C11: background processing is admitted fairly for every coroutine pool size. The scheduler's intake
+// queue admits at most CoroutineMaxSize coroutines per tick and Tick offers the background coroutines in a
+// fixed order before any request; with an idle server the loop ticks once per signal timeout. Every
+// background coroutine must still get its turn within a bounded number of ticks.
+
+type vhCapSched struct{ vhSched }
+
+func (s *vhCapSched) RunUntilBlocked(int64) { vx.SchedulerRan() }
+
+func VH_C11_TickBackground() {
+	vx.IgnoreGo()
+	capacity := vx.Choose(2) + 1 // 1 or 2 admissions per tick
+	vx.SchedulerCapacity(capacity)
+	m := metrics.New(prometheus.NewRegistry())
+	s := &System{
+		api:       api.New(1, m),
+		aio:       &vhAIO{},
+		config:    &Config{SubmissionBatchSize: 1, CompletionBatchSize: 1, CoroutineMaxSize: capacity, SignalTimeout: time.Second},
+		metrics:   m,
+		scheduler: &vhCapSched{},
+		onRequest: map[t_api.Kind]func(*t_api.Request, func(*t_api.Response, error)) gocoro.CoroutineFunc[*t_aio.Submission, *t_aio.Completion, any]{},
+	}
+	n := 3
+	runs := make([]int, n)
+	for i := 0; i < n; i++ {
+		i := i
+		s.AddBackground([]string{"A", "B", "C"}[i], func(*Config, map[string]string) gocoro.CoroutineFunc[*t_aio.Submission, *t_aio.Completion, any] {
+			return func(gocoro.Coroutine[*t_aio.Submission, *t_aio.Completion, any]) (any, error) {
+				runs[i]++
+				return nil, nil
+			}
+		})
+	}
+	// an idle server: one tick per signal timeout (arbitrary start, gaps of at least the timeout)
+	t := vx.Int64("t0")
+	vx.Assume(vx.And(t >= 1000, t < 1<<40))
+	ticks := 2 * n
+	for k := 0; k < ticks; k++ {
+		s.Tick(t)
+		gap := vx.Int64("gap")
+		vx.Assume(vx.And(gap >= 1000, gap < 1<<20))
+		t += gap
+	}
+	for i := 0; i < n; i++ {
+		vx.Assert(runs[i] >= 1, "C11:every-background-coroutine-is-admitted-within-a-bounded-number-of-ticks")
+	}
+	vx.Reach("done")
+}
